@@ -31,7 +31,7 @@ RULE = (
     "Non-trivial: >= 2 colour glyphs and (a ligature, layout tables, >= 2 palettes, or no space glyph)."
 )
 ASSUMPTIONS = ["both colour tables of the output are read by our own interpreters", "glyph identity across input/output is by the text that reaches the glyph"]
-BUDGET = {"quick": 16, "thorough": 240}
+BUDGET = {"quick": 32, "thorough": 400}
 TIMEOUT = {"quick": 1800, "thorough": 10000}
 
 
@@ -48,16 +48,24 @@ def case_st(draw, tier):
         vc = draw(c01.vector_case([fmt], "quick", max_sources=4, transforms=False, p_grad=0.35))
         vc["cfg"].update(upem=1024, ascender=950, descender=-250, width=draw(st.sampled_from([1275, 0, 1000])), reuse_tolerance=0.1, clipbox_quantization=None)
         return {"kind": "nano", "fmt": fmt, "vc": vc, "flags": flags}
-    third = draw(c13.font_case())
-    third["unsupported"] = None
-    if third["version"] == 1:
-        for k in list(third["paints"]):
-            pass
+    third = draw(c13.font_case().filter(lambda c: not c["unsupported"]))
+    if draw(st.sampled_from([False, False, True])):
+        third["own_outline"] = True
+        solid = {"Format": 2, "PaletteIndex": 0, "Alpha": 1.0}
+        third["paints"]["c0"] = [("c0", 0), ("tri", 1)] if third["version"] == 0 else {"Format": 1, "Layers": [{"Format": 10, "Glyph": "c0", "Paint": solid}, {"Format": 10, "Glyph": "tri", "Paint": dict(solid, PaletteIndex=1)}]}
     return {"kind": "third", "third": third, "flags": flags, "space": draw(st.sampled_from([True, True, False])), "layout": draw(st.booleans()), "post3": draw(st.booleans())}
 
 
+@st.composite
+def selfonly_case(draw):
+    """A hand-made style COLR font in which every colour glyph is its own (only) layer outline: no separate layer glyphs."""
+    n = draw(st.integers(1, 3))
+    return {"kind": "selfonly", "n": n, "version": draw(st.sampled_from([0, 1])), "space": draw(st.sampled_from([True, True, True, False])),
+            "flags": {"bitmaps": False, "colr_version": 1, "keep_glyph_names": draw(st.booleans())}}
+
+
 def cases(tier):
-    return case_st(tier)
+    return st.one_of(case_st(tier), case_st(tier), case_st(tier), case_st(tier), selfonly_case())
 
 
 def make_input(case):
@@ -68,7 +76,27 @@ def make_input(case):
         if r.error is not None:
             return None, "input build raises %s" % type(r.error).__name__
         return r.data, None
+    if case["kind"] == "selfonly":
+        from collections import OrderedDict
+
+        from ..minifont import make_font
+
+        glyphs = OrderedDict([(".notdef", ([[(50, 0), (50, 700), (450, 700), (450, 0)]], None))])
+        cmap = {}
+        if case["space"]:
+            glyphs["space"] = ([], None)
+            cmap[0x20] = "space"
+        colr = {}
+        for i in range(case["n"]):
+            nm = "c%d" % i
+            glyphs[nm] = ([[(100 + 20 * i, 100), (100 + 20 * i, 500 + 30 * i), (600, 500 + 30 * i), (600, 100)]], None)
+            cmap[0xE000 + i] = nm
+            colr[nm] = [(nm, i % 2)] if case["version"] == 0 else {"Format": 10, "Glyph": nm, "Paint": {"Format": 2, "PaletteIndex": i % 2, "Alpha": 1.0}}
+        font, data = make_font(glyphs, cmap, colr=colr, colr_version=case["version"], palettes=[[(1, 0, 0, 1), (0, 0, 1, 1)]])
+        return data, None
     third = dict(case["third"])
+    if not case["space"]:
+        third["no_space"] = True
     try:
         font, data = c13.build_case_font(third)
     except Exception as e:
@@ -86,14 +114,6 @@ def make_input(case):
         fea += " table GDEF { GlyphClassDef [sq tri %s], , [ring], ; } GDEF;" % " ".join(names)
         fea += " markClass ring <anchor 10 20> @TOP; feature mark { pos base sq <anchor 300 500> mark @TOP; pos base %s <anchor 200 600> mark @TOP; } mark;" % names[0]
         addOpenTypeFeaturesFromString(font, fea)
-    if not case["space"]:
-        order = [g for g in font.getGlyphOrder() if g != "space"]
-        from fontTools import subset
-
-        opts = subset.Options(layout_features=["*"], notdef_outline=True, glyph_names=True, legacy_cmap=True, name_IDs=["*"], drop_tables=[])
-        sub = subset.Subsetter(opts)
-        sub.populate(glyphs=order, unicodes=[cp for cp in font.getBestCmap() if cp != 0x20])
-        sub.subset(font)
     if case["post3"]:
         font["post"].formatType = 3
     buf = io.BytesIO()
@@ -127,7 +147,7 @@ def judge(case):
 
     v = Verdict()
     flags = case["flags"]
-    v.cls("input:" + (case["fmt"] if case["kind"] == "nano" else "third-party-colr%d" % case["third"]["version"]))
+    v.cls("input:" + (case["fmt"] if case["kind"] == "nano" else ("self-layer-colr%d" % case["version"] if case["kind"] == "selfonly" else "third-party-colr%d" % case["third"]["version"])))
     for k, x in flags.items():
         if x not in (False, 1):
             v.cls("flag:%s=%s" % (k, x))
@@ -155,8 +175,20 @@ def judge(case):
         rc, out = ws.run(args, ninja_j=4)
         if rc != 0:
             errs = [l for l in out.splitlines() if "Error" in l or "FAILED" in l]
-            no_space = case["kind"] == "third" and not case.get("space", True)
+            import re as _re
+
+            specific = [l.strip() for l in out.splitlines() if _re.match(r"\s*[\w.]*(Error|Exception)\b", l) and "CalledProcessError" not in l]
+            if specific:
+                errs.append(specific[0])
+            no_space = case["kind"] in ("third", "selfonly") and not case.get("space", True)
             key = (errs[-1][:60] if errs else "exit %d" % rc)
+            if flags["bitmaps"] and "Bitmap is too big for CBDT" in out:
+                v.rejected = "bitmap wider than 255 px at the default resolution (CBDT limit)"
+                return v
+            if flags["colr_version"] == 0 and "already maps to" in out:
+                # COLRv0 keeps alpha in the palette: a palette variable used with two alphas cannot be expressed (C15)
+                v.rejected = "COLRv0 palette alpha conflict"
+                return v
             v.fail("maximum-color-failed", ("no-space-glyph:" if no_space else "") + key, {"out": "\n".join(errs)[-1200:], "flags": flags})
             return v
         outs = [f for f in fonts_in(ws.path("build")) if os.path.basename(f) == "Font.ttf"]
@@ -234,6 +266,9 @@ def judge(case):
                         v.fail("complementary-table-differs", "v0-outlines", {"text": t, "extra": len(ui), "missing": len(uj)})
                     continue
                 bud = Budget("colr", upem, 0.1, 1.0, extra_tau=1.0)
+                if flags["colr_version"] == 0:
+                    bud.alpha_override = 1.1 / 255  # COLRv0 keeps alpha in the 8-bit palette entry
+                    bud.ignore_fg_alpha = True
                 relax = "colr"
             else:
                 bud = Budget("otsvg", upem, 0.1, 1.0, extra_tau=1.0)
@@ -243,7 +278,7 @@ def judge(case):
             res, margin = compare_trees(tc, ref, bud, relax_to=relax)
             v.margin = max(v.margin, margin if not res else 0.0)
             for kind, path, detail in res[:2]:
-                v.fail("complementary-table-differs", kind, {"text": t, "path": path, "detail": detail, "target": other})
+                v.fail("complementary-table-differs", kind, {"text": t, "path": path, "detail": detail, "target": other, "input": in_table})
             if flags["bitmaps"] and "CBDT" in fout:
                 recs = [sd[gb] for sd in fout["CBDT"].strikeData if gb in sd]
                 if len(recs) != 1:
@@ -261,7 +296,7 @@ def judge(case):
             for key, a, b in d[:2]:
                 v.fail("layout-changed", key, {"before": a, "after": b})
     has_layout = any(t in fin for t in ("GPOS", "GDEF")) or lig
-    v.nontrivial = ncolour >= 2 and (lig or has_layout or (case["kind"] == "third" and (case["third"]["npal"] > 1 or not case["space"])))
+    v.nontrivial = ncolour >= 2 and (lig or has_layout or (case["kind"] == "third" and (case["third"]["npal"] > 1 or not case["space"])) or (case["kind"] == "selfonly" and not case["space"]))
     return v
 
 
@@ -269,7 +304,7 @@ def shrink(case):
     if case["kind"] == "nano":
         for c in c01.shrink(case["vc"]):
             yield dict(case, vc=c)
-    else:
+    elif case["kind"] == "third":
         for c in c13.shrink(case["third"]):
             yield dict(case, third=c)
     for k, x in case["flags"].items():
